@@ -270,6 +270,7 @@ func Run(a RunArgs) int {
 
 	// confirm crashes by re-running the single case in fresh processes
 	var confirmed []crashRec
+	transient := 0
 	for _, c := range crashes {
 		if a.Replay != "" {
 			confirmed = append(confirmed, c)
@@ -282,6 +283,7 @@ func Run(a RunArgs) int {
 		}
 		got := 0
 		last := c
+		var rerun []*Result
 		for t := 0; t < tries && got < need; t++ {
 			out, prog, se := filepath.Join(tmp, "c.out"), filepath.Join(tmp, "c.prog"), filepath.Join(tmp, "c.err")
 			os.Remove(out)
@@ -290,14 +292,46 @@ func Run(a RunArgs) int {
 			if code != 0 {
 				got++
 				last.stderr = head(se, 1<<16)
-			} else if c.kind == "hang" {
-				break
+			} else {
+				rerun = readResults(out)
+				if c.kind == "hang" {
+					break
+				}
 			}
 		}
 		if got >= need {
 			confirmed = append(confirmed, last)
 		} else {
-			inconcl = append(inconcl, fmt.Sprintf("case %d: %s did not reproduce (%d/%d)", c.idx, c.kind, got, need))
+			// keep what the dying worker said (goroutine dump of the watchdog, fatal error text): the only trace of it
+			note := ""
+			if a.VerifDir != "" && os.Getenv("VERIF_NO_EVIDENCE") == "" {
+				d := filepath.Join(a.VerifDir, "replays", a.Prop, fmt.Sprintf("unreproduced-%s-%d-%d", a.Tier, a.Seed, c.idx))
+				if os.MkdirAll(d, 0o755) == nil {
+					_ = os.WriteFile(filepath.Join(d, "stderr.txt"), []byte(c.stderr), 0o644)
+					if cs := eng.Gen(a.Prop, a.Tier, a.Seed, c.idx); cs != nil {
+						if b, err := json.MarshalIndent(cs, "", " "); err == nil {
+							_ = os.WriteFile(filepath.Join(d, "case.json"), b, 0o644)
+						}
+					}
+					note = " (worker output kept in " + d + ")"
+				}
+			}
+			// the case itself completed when run again in a fresh process: that execution is its result. The death of the
+			// first worker stays on record (evidence key transient_worker_deaths); more than two in one run is not
+			// something to explain away and makes the run inconclusive.
+			transient++
+			for _, r := range rerun {
+				if r.Index == c.idx {
+					r.Ev("transient_worker_deaths", 1)
+					r.Set("transient_worker_deaths", fmt.Sprintf("case %d: %s did not reproduce (%d/%d)%s", c.idx, c.kind, got, need, note))
+					results = append(results, r)
+					break
+				}
+			}
+			fmt.Printf("NOTE property=%s case %d: a worker died (%s) but the case completes when run again (%d/%d re-runs died)%s\n", a.Prop, c.idx, c.kind, got, tries, note)
+			if transient > 2 {
+				inconcl = append(inconcl, fmt.Sprintf("case %d: %s did not reproduce (%d/%d)%s: %s", c.idx, c.kind, got, need, note, firstLines(c.stderr, 3)))
+			}
 		}
 	}
 	for _, c := range confirmed {
